@@ -52,6 +52,8 @@ def run(ctx):
     meta_rules.rowcount_rule(ctx, 'R6.14', only_modules={'api'})
     from . import c17 as _c17
     _c17.r172(ctx, api)     # the dtype an explicitly chosen index column is allocated with
+    from . import c01 as _c01
+    _c01.r127(ctx, 'R6.15')
     r611(ctx)
     r612(ctx, api)
     r613(ctx, api)
